@@ -115,8 +115,18 @@ SERVICE_EDGES = [
     ("two services with one name", "service S @ 1 {\n    method m(A) @ 0 returns B,\n}\nservice S @ 2 {\n    method k(B) @ 3 returns A,\n}"),
     ("negative ids", "service S @ -1 {\n    method m(A) @ -2 returns B,\n}"),
     ("a service without methods is a syntax error or fine", "service S @ 1 {\n}"),
+    ("a user struct named like an rpc wrapper", "struct AInput {\n    z @ 0: u8,\n}\nservice S @ 1 {\n    method m(A) @ 0 returns B,\n}"),
+    ("a user enum named ServiceId", "enum ServiceId {\n    K = 0,\n}\nservice S @ 1 {\n    method m(A) @ 0 returns B,\n}"),
+    ("a user enum named like the method id enum", "enum SMethodId {\n    K = 0,\n}\nservice S @ 1 {\n    method m(A) @ 0 returns B,\n}"),
+    ("a method called Size", "service S @ 1 {\n    method Size(A) @ 0 returns B,\n}"),
+    ("a service called Size", "service Size @ 1 {\n    method m(A) @ 0 returns B,\n}"),
+    ("payload wrappers that coincide", "struct a {\n    z @ 0: u8,\n}\nservice S @ 1 {\n    method m(A) @ 0 returns B,\n    method n(a) @ 1 returns B,\n}"),
     ("two services with one id", "service S @ 1 {\n    method m(A) @ 0 returns B,\n}\nservice T @ 1 {\n    method k(B) @ 3 returns A,\n}"),
 ]
+
+
+RPC_NAME_CLASHES = {"a user struct named like an rpc wrapper", "a user enum named ServiceId", "a user enum named like the method id enum",
+                    "a method called Size", "a service called Size", "payload wrappers that coincide"}
 
 
 def service_edge_probe(rep):
@@ -155,6 +165,12 @@ def service_edge_probe(rep):
         finally:
             shutil.rmtree(d_, ignore_errors=True)
         rep.hist("service_edges", label + (": compiles" if p.returncode == 0 else ": does not compile"))
+        if p.returncode != 0 and label in RPC_NAME_CLASHES and known("C03", "rpc-derived-name-clash"):
+            # recorded finding: exactly the listed class (a declared name equal to a name the rpc layer derives)
+            rep.known_finding("a schema with a service in which a declared name equals a name the rpc layer of the C++ generator "
+                              "derives (<Payload>Input/Output, ServiceId, <Service>MethodId, Size) is accepted and its fcp.h does not "
+                              "compile (witness: struct AInput next to service S { method m(A) ... })")
+            continue
         if p.returncode != 0:
             rep.cov["disagreements_checked"] += 1
             rep.violation({"kind": "compile", "schema": c["text"], "compiler": p.stdout[-1200:], "edge": label,
